@@ -225,6 +225,7 @@ func TestC08(t *testing.T) {
 		"(3) edit + Node.FixFrame (edited message field / header; also forward-then-edit-then-fix) validates at a next hop with the dialect and InKey=OutKey. distinct = distinct received wire images")
 	rep.RuleAdd("Also: the router forwards with WriteFrameTo / All / Except in rotation and wipes the decoded message it was handed once the call has returned. Router nodes configured with OutVersion V1; two value copies of a received frame edited and fixed before either is written.")
 	rep.RuleAdd("Rounds 12-15: routers that wipe the handed message, routers of the other protocol version, fan-out copies, one frame object to two writers, unsigned input into keyed routers.")
+	rep.RuleAdd("Rounds 16-17: both routing entry points of frame.Writer (Write and the deprecated WriteFrame) in turn.")
 	rep.Assume("signed frames forwarded with a dialect go to a next hop without InKey (the statement promises checksum validity there, not signature survival)")
 	seed := vh.Seed()
 	r := vh.Sub(seed, "c08")
